@@ -296,6 +296,21 @@ def big_message(rng, n_fill, late):
     return case
 
 
+def offset_message(target, late):
+    """the owner name `late` is first written exactly at message offset `target` (>= 16300) and then repeated:
+    62 root-owned TXT records of 262 bytes (12 + 62*262 = 16256) and one more sized to land on the target"""
+    pad = target - 16256 - 12
+    assert 0 <= pad <= 255
+    txt = lambda n: {"n": [], "t": 16, "c": 1, "ttl": 1, "d": [{"l": [hx(b"x" * n)]}]}
+    hdr = {"id": 7, "answer": 1, "opCode": 0, "auth": 1, "trunc": 0, "recDes": 0, "recAv": 0, "authenticData": 0,
+           "checkingDisabled": 0, "rCode": 0}
+    return {"kind": "msg", "hdr": hdr, "q": [], "an": [txt(250) for _ in range(62)] + [txt(pad)], "ns": [],
+            "ar": [{"n": late, "t": 1, "c": 1, "ttl": 5, "d": [{"b": "01020304"}]},
+                   {"n": late, "t": 1, "c": 1, "ttl": 6, "d": [{"b": "01020305"}]},
+                   {"n": [hx(b"www")] + late, "t": 5, "c": 1, "ttl": 7, "d": [{"n": late}]}],
+            "maxSize": 0, "model": True}
+
+
 def corpus():
     import random
     rng = random.Random(32)
@@ -309,6 +324,8 @@ def corpus():
         c = gen_message(rng, "tiny")
         c["q"] = [[[hx(l) for l in labels], 1, 1]]
         cs.append(c)
+    for target in (16382, 16383, 16384, 16385):                # the 14-bit pointer boundary, exactly
+        cs.append(offset_message(target, [hx(b"late"), hx(b"name"), hx(b"test")]))
     cs.append(big_message(rng, 70, [hx(b"late"), hx(b"name"), hx(b"test")]))     # first seen at offset > 16383
     cs.append(big_message(rng, 60, [hx(b"late"), hx(b"name"), hx(b"test")]))     # first seen below 16384
     p = os.path.join(VERIF, "corpus/C32/seeds.json")
@@ -382,7 +399,7 @@ def _size(case):
 def to_coq(case):
     if case["kind"] != "msg":
         return None
-    if len(json.dumps(case)) > 9000:
+    if len(json.dumps(case)) > 9000 and not case.get("model"):
         return None
     if 0 < case["maxSize"] < 12:
         return None
